@@ -161,6 +161,12 @@ impl<'a> Cx<'a> {
 
     /// statements over `let mut` state: assignments shadow, `if` / `for` return the state tuple
     pub(super) fn st_block(&self, stmts: &[Stmt], muts: &mut Vec<MutVar>, top: bool) -> R<String> {
+        self.st_block_with(stmts, muts, top, None)
+    }
+
+    /// `end`: what a non-top block ends in instead of the state tuple (a tail call); only then may an
+    /// assignment contain `?` (the rest of the block moves under the match that unwraps it)
+    pub(super) fn st_block_with(&self, stmts: &[Stmt], muts: &mut Vec<MutVar>, top: bool, end: Option<&str>) -> R<String> {
         let mut out: Vec<String> = vec![];
         let mut have_value = false;
         for (i, st) in stmts.iter().enumerate() {
@@ -215,6 +221,15 @@ impl<'a> Cx<'a> {
                     };
                     let name = p.path.get_ident().map(|i| ident(&i.to_string())).ok_or("unsupported assignment target")?;
                     let mv = muts.iter().find(|m| m.name == name).ok_or(format!("assignment to non-`mut` `{name}`"))?;
+                    if Cx::contains_return(&a.right) {
+                        let (Some(_), false, false) = (end, top, mv.ext) else {
+                            return Err(format!("`?` in an assignment that is not in tail position: {}", quote::quote!(#a)));
+                        };
+                        let rest_s = self.st_block_with(&stmts[i + 1..], muts, false, end)?;
+                        let s = self.expr_k(&a.right, &|v| Ok(format!("let {name} := {v}\n{rest_s}")))?;
+                        out.push(s);
+                        return Ok(out.join("\n"));
+                    }
                     let v = self.expr(&a.right)?;
                     if mv.ext {
                         out.push(format!("let {name} := (some {v})"));
@@ -325,7 +340,7 @@ impl<'a> Cx<'a> {
                 return Err("stateful body does not end in a value".into());
             }
         } else {
-            out.push(state_tuple(muts));
+            out.push(end.map(|e| e.to_string()).unwrap_or_else(|| state_tuple(muts)));
         }
         Ok(out.join("\n"))
     }
